@@ -47,26 +47,34 @@ def cases(tier, seed):
         eqs = ["a", "b"] if (tier == "thorough" or kind != "nonstatio") else ["a"]
         out.append(dict(type="cube", kind=kind, eq=eqs, quick=tier == "quick"))
         out.append(dict(type="cube", kind=kind, eq=[], quick=tier == "quick"))  # forward problem: eq_params == {}
+        # the same cube evaluated on a batch that carries per-sample values of another parameter (vmapped code paths)
+        out.append(dict(type="cube", kind=kind, eq=["a"], quick=tier == "quick", pbatch=True))
         out.append(dict(type="strings", kind=kind, eq=eqs))
         out.append(dict(type="system", kind=kind, eq=BOUNDS[tier]["eq"]))
-    return [c for c in out if not (c["type"] == "system" and c["kind"] != "ode")]
+    return [c for c in out if not (c["type"] == "system" and c["kind"] == "statio")]
 
 
 def out_tr(inp, out, p):
     if "a" not in p.eq_params:
         return out + 0.1 * jnp.sum(inp)
     r = out * (1.0 + 0.3 * p.eq_params["a"]) + 0.1 * jnp.sum(inp)
+    if "q" in p.eq_params:
+        r = r * (1.0 + 0.2 * jnp.reshape(p.eq_params["q"], (-1,))[0])
     if "b" in p.eq_params:
         r = r + 0.2 * p.eq_params["b"] * jnp.sum(inp) ** 2
     return r
 
 
-def build(kind, eqs, dk=None):
+def build(kind, eqs, dk=None, pbatch=False):
     d = 1
     u, coef, expo = L.make_u(kind, d, 1, deg=2, salt=5, output_transform=out_tr)
     eqp = {"b": jnp.asarray(-0.4)} if "b" in eqs else {}
     if "a" in eqs:
         eqp["a"] = jnp.asarray(0.7)  # non-alphabetical insertion order
+    pb = None
+    if pbatch:
+        eqp["q"] = jnp.asarray(0.5)
+        pb = {"q": jnp.asarray(np.array([[0.4], [-0.7], [1.1]]))}
     params = Params(nn_params=u.init_params(), eq_params=eqp)
     nv = L.nvar_of(kind, d)
     pts = L.points(3, nv)
@@ -74,7 +82,7 @@ def build(kind, eqs, dk=None):
     dyn = EQ[kind]()
     if kind == "ode":
         loss = L.quiet(jinns.loss.LossODE, u=u, dynamic_loss=dyn, initial_condition=(0.3, jnp.asarray([0.2])), derivative_keys=dk, params=params)
-        batch = L.make_batch(kind, pts, obs=obs)
+        batch = L.make_batch(kind, pts, obs=obs, param=pb)
     else:
         kw = dict(norm_samples=jnp.asarray(L.points(3, d, salt=4)), norm_int_length=2.0, omega_boundary_condition="dirichlet")
         if kind == "statio":
@@ -84,7 +92,13 @@ def build(kind, eqs, dk=None):
             border = np.stack([L.points(2, 1 + d, salt=f) for f in range(2)], axis=-1)
             loss = L.quiet(jinns.loss.LossPDENonStatio, u=u, dynamic_loss=dyn, omega_boundary_fun=lambda t, dx: 0.25,
                            initial_condition_fun=lambda x: jnp.sin(x), derivative_keys=dk, params=params, **kw)
-        batch = L.make_batch(kind, pts, border=border, obs=obs)
+        if pbatch:
+            # normalisation and 1-D boundary batches do not have one row per sample: not combined with a parameter batch
+            kw2 = dict(initial_condition_fun=lambda x: jnp.sin(x)) if kind == "nonstatio" else {}
+            LS = jinns.loss.LossPDEStatio if kind == "statio" else jinns.loss.LossPDENonStatio
+            loss = L.quiet(LS, u=u, dynamic_loss=dyn, derivative_keys=dk, params=params, **kw2)
+            border = None
+        batch = L.make_batch(kind, pts, border=border, obs=obs, param=pb)
     return loss, params, batch
 
 
@@ -110,7 +124,7 @@ class EqNonStatio(jinns.loss.PDENonStatio):
 EQ = {"ode": EqODE, "statio": EqStatio, "nonstatio": EqNonStatio}
 
 
-def dk_from_masks(kind, eqs, terms, masks, reverse_keys=False):
+def dk_from_masks(kind, eqs, terms, masks, reverse_keys=False, extra=None, defaults_from=None):
     """masks: (n_terms, 1+len(eqs)) booleans (python or traced).  reverse_keys: write the mask dictionaries with their
     keys in reverse order (a dict is matched by key, not by position)"""
     kw = {}
@@ -118,7 +132,9 @@ def dk_from_masks(kind, eqs, terms, masks, reverse_keys=False):
     if reverse_keys:
         order = order[::-1]
     for ti, t in enumerate(terms):
-        kw[t] = Params(nn_params=masks[ti][0], eq_params={e: masks[ti][1 + ei] for ei, e in order})
+        kw[t] = Params(nn_params=masks[ti][0], eq_params={**{e: masks[ti][1 + ei] for ei, e in order}, **(extra or {})})
+    if defaults_from is not None:
+        kw["params"] = defaults_from  # terms that are not enumerated keep their default specification
     return DK[kind](**kw)
 
 
@@ -129,13 +145,21 @@ def flat_grad(g, eqs):
 
 def run_cube(case):
     kind, eqs = case["kind"], case["eq"]
-    terms = TERMS[kind]
+    pbatch = case.get("pbatch", False)
+    terms = TERMS[kind] if not pbatch else [t for t in TERMS[kind] if t not in ("norm_loss", "boundary_loss")]
     nT, nG = len(terms), 1 + len(eqs)
-    site = f"derivative_keys/{kind}"
-    loss0, params, batch = build(kind, eqs, dk_from_masks(kind, eqs, terms, [[True] * nG] * nT))
+    site = f"derivative_keys/{kind}" + ("/param_batch" if pbatch else "")
+    extra = {"q": True} if pbatch else None
+    _, params_d, _ = build(kind, eqs, None, pbatch) if pbatch else (None, None, None)
+    _dk = dk_from_masks
+
+    def dk_from_masks_(kind_, eqs_, terms_, masks_, reverse_keys=False):
+        return _dk(kind_, eqs_, terms_, masks_, reverse_keys=reverse_keys, extra=extra, defaults_from=params_d)
+
+    loss0, params, batch = build(kind, eqs, dk_from_masks_(kind, eqs, terms, [[True] * nG] * nT), pbatch)
 
     def f(masks):
-        loss = eqx.tree_at(lambda l: l.derivative_keys, loss0, dk_from_masks(kind, eqs, terms, masks))
+        loss = eqx.tree_at(lambda l: l.derivative_keys, loss0, dk_from_masks_(kind, eqs, terms, masks))
         (tot, td), g = jax.value_and_grad(lambda p: loss.evaluate(p, batch), has_aux=True)(params)
         per = [flat_grad(jax.grad(lambda p, t=t: loss.evaluate(p, batch)[1][t])(params), eqs) for t in terms]
         return tot, jnp.stack([td[t] for t in terms]), flat_grad(g, eqs), per
@@ -152,7 +176,7 @@ def run_cube(case):
     if vac:
         raise RuntimeError(f"vacuous (term, group) pairs in the harness problem: {vac}")
     # finite-difference validation of the reference gradients w.r.t. the equation parameters
-    loss_all = eqx.tree_at(lambda l: l.derivative_keys, loss0, dk_from_masks(kind, eqs, terms, [[True] * nG] * nT))
+    loss_all = eqx.tree_at(lambda l: l.derivative_keys, loss0, dk_from_masks_(kind, eqs, terms, [[True] * nG] * nT))
     h = 1e-6
     for ei, e in enumerate(eqs):
         pp = eqx.tree_at(lambda p: p.eq_params[e], params, params.eq_params[e] + h)
@@ -190,7 +214,7 @@ def run_cube(case):
         for base in (False, True):
             m = [[base] * nG for _ in range(nT)]
             m[t][g] = not base
-            le, pe, be = build(kind, eqs, dk_from_masks(kind, eqs, terms, m, reverse_keys=True))
+            le, pe, be = build(kind, eqs, dk_from_masks_(kind, eqs, terms, m, reverse_keys=True), pbatch)
             ge = flat_grad(jax.grad(lambda p: le.evaluate(p, be)[0])(pe), eqs)
             idx = int(np.argwhere((cube.reshape(len(cube), -1) == np.array(m).reshape(-1)).all(axis=1))[0][0])
             neager += 1
@@ -254,49 +278,70 @@ def run_strings(case):
 
 
 def run_system(case):
-    """per-unknown constraint terms of SystemLossODE with 2 unknowns: every mask over (ic, obs) x (nn, a[, b]) per unknown"""
+    """per-unknown constraint terms of SystemLossODE / SystemLossPDE (non-stationary) with 2 unknowns: every mask over
+    (initial condition, observations) x (nn, a[, b]) per unknown; reference gradients from the single loss of each unknown"""
     eqs = case["eq"]
-    site = "derivative_keys/SystemLossODE"
+    kind = case["kind"]
+    pde = kind != "ode"
+    site = "derivative_keys/" + ("SystemLossPDE" if pde else "SystemLossODE")
     names = ["u", "v"]
-    us = {n: L.make_u("ode", 0, 1, deg=2, salt=5 + i, output_transform=out_tr)[0] for i, n in enumerate(names)}
+    d = 1 if pde else 0
+    nv = L.nvar_of(kind, d)
+    us = {n: L.make_u(kind, d, 1, deg=2, salt=5 + i, output_transform=out_tr)[0] for i, n in enumerate(names)}
     eqp = {"a": jnp.asarray(0.7)}
     if "b" in eqs:
         eqp["b"] = jnp.asarray(-0.4)
     pd = jinns.parameters.ParamsDict(nn_params={n: us[n].init_params() for n in names}, eq_params=eqp)
+    DKC = DerivativeKeysPDENonStatio if pde else DerivativeKeysODE
 
-    class Sys(jinns.loss.ODE):
+    class SysO(jinns.loss.ODE):
         def equation(self, t, u_dict, params_dict):
             return u_dict["u"](t, params_dict.extract_params("u")) - u_dict["v"](t, params_dict.extract_params("v"))
 
+    class SysN(jinns.loss.PDENonStatio):
+        def equation(self, t, x, u_dict, params_dict):
+            return u_dict["u"](t, x, params_dict.extract_params("u")) - u_dict["v"](t, x, params_dict.extract_params("v"))
+
     terms = ["initial_condition", "observations"]
     nG = 1 + len(eqs)
-    obs = {n: {"pinn_in": jnp.asarray(L.points(2, 1, salt=7 + i)), "val": jnp.asarray(np.array([[0.2], [-0.1]]) * (i + 1)), "eq_params": {}} for i, n in enumerate(names)}
-    batch = L.make_batch("ode", L.points(2, 1), obs=obs)
+    obs = {n: {"pinn_in": jnp.asarray(L.points(2, nv, salt=7 + i)), "val": jnp.asarray(np.array([[0.2], [-0.1]]) * (i + 1)), "eq_params": {}} for i, n in enumerate(names)}
+    pts = L.points(2, nv)
+    batch = L.make_batch(kind, pts, obs=obs)
+    ic_ode = {"u": (0.3, jnp.asarray([0.2])), "v": (0.1, jnp.asarray([-0.3]))}
+    ic_pde = {"u": (lambda x: jnp.sin(x)), "v": (lambda x: 0.5 * jnp.cos(x))}
 
     def mk(masks):  # masks[unknown][term][group]
         dkd = {}
         for ui, n in enumerate(names):
-            dkd[n] = DerivativeKeysODE(dyn_loss=Params(nn_params=True, eq_params={e: True for e in eqs}),
-                                       initial_condition=Params(nn_params=masks[ui][0][0], eq_params={e: masks[ui][0][1 + k] for k, e in enumerate(eqs)}),
-                                       observations=Params(nn_params=masks[ui][1][0], eq_params={e: masks[ui][1][1 + k] for k, e in enumerate(eqs)}))
-        return L.quiet(jinns.loss.SystemLossODE, u_dict=us, dynamic_loss_dict={"u": Sys(), "v": Sys()}, derivative_keys_dict=dkd,
-                       initial_condition_dict={"u": (0.3, jnp.asarray([0.2])), "v": (0.1, jnp.asarray([-0.3]))},
+            kw = dict(dyn_loss=Params(nn_params=True, eq_params={e: True for e in eqs}),
+                      initial_condition=Params(nn_params=masks[ui][0][0], eq_params={e: masks[ui][0][1 + k] for k, e in enumerate(eqs)}),
+                      observations=Params(nn_params=masks[ui][1][0], eq_params={e: masks[ui][1][1 + k] for k, e in enumerate(eqs)}))
+            if pde:
+                kw["params"] = jinns.parameters.Params(nn_params=pd.nn_params[n], eq_params=pd.eq_params)
+            dkd[n] = DKC(**kw)
+        if pde:
+            return L.quiet(jinns.loss.SystemLossPDE, u_dict=us, dynamic_loss_dict={"u": SysN(), "v": SysN()}, derivative_keys_dict=dkd,
+                           initial_condition_fun_dict=ic_pde,
+                           loss_weights=jinns.loss.LossWeightsPDEDict(dyn_loss=0.0, norm_loss=None, boundary_loss=None, initial_condition=1.0, observations=1.0), params_dict=pd)
+        return L.quiet(jinns.loss.SystemLossODE, u_dict=us, dynamic_loss_dict={"u": SysO(), "v": SysO()}, derivative_keys_dict=dkd,
+                       initial_condition_dict=ic_ode,
                        loss_weights=jinns.loss.LossWeightsODEDict(dyn_loss=0.0, initial_condition=1.0, observations=1.0), params_dict=pd)
-
-    loss0 = mk([[[True] * nG] * 2] * 2)
 
     def fg(loss):
         g = jax.grad(lambda p: loss.evaluate(p, batch)[0])(pd)
         return [np.concatenate([np.ravel(x) for x in jax.tree_util.tree_leaves(g.nn_params[n])]) for n in names] + [np.asarray(g.eq_params[e]).reshape(1) for e in eqs]
 
     def term_grads(ui, ti):
-        """reference: gradient of term ti of the *single* LossODE of unknown ui (all groups selected), laid out like fg()"""
+        """reference: gradient of term ti of the *single* loss of unknown ui (all groups selected), laid out like fg()"""
         n_ = names[ui]
         p1 = jinns.parameters.Params(nn_params=pd.nn_params[n_], eq_params=pd.eq_params)
-        dk1 = DerivativeKeysODE.from_str(params=p1, dyn_loss="both", initial_condition="both", observations="both")
-        ic1 = {"u": (0.3, jnp.asarray([0.2])), "v": (0.1, jnp.asarray([-0.3]))}[n_]
-        single = L.quiet(jinns.loss.LossODE, u=us[n_], dynamic_loss=None, initial_condition=ic1, derivative_keys=dk1, params=p1)
-        sb = L.make_batch("ode", L.points(2, 1), obs=obs[n_])
+        if pde:
+            dk1 = DerivativeKeysPDENonStatio.from_str(params=p1, dyn_loss="both", initial_condition="both", observations="both")
+            single = L.quiet(jinns.loss.LossPDENonStatio, u=us[n_], dynamic_loss=None, initial_condition_fun=ic_pde[n_], derivative_keys=dk1, params=p1)
+        else:
+            dk1 = DerivativeKeysODE.from_str(params=p1, dyn_loss="both", initial_condition="both", observations="both")
+            single = L.quiet(jinns.loss.LossODE, u=us[n_], dynamic_loss=None, initial_condition=ic_ode[n_], derivative_keys=dk1, params=p1)
+        sb = L.make_batch(kind, pts, obs=obs[n_])
         g = jax.grad(lambda p: single.evaluate(p, sb)[1][terms[ti]])(p1)
         out = [np.zeros_like(np.concatenate([np.ravel(x) for x in jax.tree_util.tree_leaves(pd.nn_params[m])])) for m in names]
         out[ui] = np.concatenate([np.ravel(x) for x in jax.tree_util.tree_leaves(g.nn_params)])
@@ -310,26 +355,30 @@ def run_system(case):
     cube = list(itertools.product([True, False], repeat=2 * nG))
     for ui in range(2):
         for bits in cube:
-            m = [[[False] * nG for _ in range(2)] for _ in range(2)]
+            # the other unknown keeps a *different* fixed specification (everything selected), so that keys taken from the
+            # wrong unknown are visible
+            m = [[[True] * nG for _ in range(2)] for _ in range(2)]
             m[ui] = [list(bits[:nG]), list(bits[nG:])]
             got = fg(mk(m))
             n += 1
-            # expected: network group of unknown ui gets ic/obs reference where selected; eq groups likewise
             exp = [np.zeros_like(x) for x in got]
-            for ti in range(2):
-                r = ref[(ui, ti)]
-                if m[ui][ti][0]:
-                    exp[ui] = exp[ui] + r[ui]
-                for k in range(len(eqs)):
-                    if m[ui][ti][1 + k]:
-                        exp[2 + k] = exp[2 + k] + r[2 + k]
-            for gi, (a, b) in enumerate(zip(got, exp)):
-                if np.abs(a - b).max() > 1e-10 * (1 + np.abs(b).max()):
-                    v.append(V(site, "per_unknown_term_gradient_not_routed_by_its_derivative_keys", f"unknown {names[ui]} masks {m[ui]} group {gi}: got {a[:3]} expected {b[:3]}"))
+            for uj in range(2):
+                for ti in range(2):
+                    r = ref[(uj, ti)]
+                    if m[uj][ti][0]:
+                        exp[uj] = exp[uj] + r[uj]
+                    for k in range(len(eqs)):
+                        if m[uj][ti][1 + k]:
+                            exp[2 + k] = exp[2 + k] + r[2 + k]
+            for gi, (a_, b_) in enumerate(zip(got, exp)):
+                if np.abs(a_ - b_).max() > 1e-10 * (1 + np.abs(b_).max()):
+                    v.append(V(site, "per_unknown_term_gradient_not_routed_by_its_derivative_keys", f"unknown {names[ui]} masks {m[ui]} (other unknown: all selected) group {gi}: got {a_[:3]} expected {b_[:3]}"))
                     break
             if v:
                 break
-    return dict(viol=v, evals=n, nontrivial=[f"system|{i}" for i in range(n)], outcomes=[f"system|{n}"], sample={"kind": "SystemLossODE", "masks": n})
+        if v:
+            break
+    return dict(viol=v, evals=n, nontrivial=[f"system|{kind}|{i}" for i in range(n)], outcomes=[f"system|{kind}|{n}"], sample={"kind": site, "masks": n})
 
 
 def run_case(case):
